@@ -25,7 +25,7 @@ def locate(relfile, root=None):
     return _locate_path(path, relfile)
 
 
-def desugar(loc, relfile, fn_paths, rules):
+def desugar(loc, relfile, fn_paths, rules, _pass=0):
     """Engine V-D: apply the closed list of mechanical desugarings (DESIGN.md 2.1b) to the named functions of a
     file and re-locate the rewritten text.  Returns (new_loc, records)."""
     src = loc["src"]
@@ -69,6 +69,22 @@ def desugar(loc, relfile, fn_paths, rules):
                     new = f"{recv}.pv_splice({lo}, {hi}, {arg});"
                     rewrites.append((v["call"][0], v["call"][1], new))
                     records.append({"fn": fp, "rule": "D18 let _ = V.splice(LO..HI, ARG);  =>  V.pv_splice(LO, HI, ARG);   (spec/std_vec_splice.rs: the documented effect of Vec::splice whose iterator is dropped at once; panics unless LO <= HI <= len)",
+                                    "original": src[v["call"][0]:v["call"][1]], "rewritten": new})
+                    continue
+                if v["rule"] == "D21":
+                    recv = src[v["recv"][0]:v["recv"][1]]
+                    pat = src[v["pat"][0]:v["pat"][1]]
+                    body = src[v["body"][0]:v["body"][1]]
+                    new = f"(match {recv} {{ Some({pat}) => {body}, None => false }})"
+                    rewrites.append((v["call"][0], v["call"][1], new))
+                    records.append({"fn": fp, "rule": "D21 OPT.is_some_and(|x| E)  =>  (match OPT { Some(x) => E, None => false })   (Verus does not see into a closure without its own ensures clause)",
+                                    "original": src[v["call"][0]:v["call"][1]], "rewritten": new})
+                    continue
+                if v["rule"] == "D20":
+                    recv = src[v["recv"][0]:v["recv"][1]]
+                    new = f"pv_iter_copied(&{recv})"
+                    rewrites.append((v["call"][0], v["call"][1], new))
+                    records.append({"fn": fp, "rule": "D20 X.iter().copied() (as an argument)  =>  pv_iter_copied(&X)   (a stub value whose items are the elements of X in order)",
                                     "original": src[v["call"][0]:v["call"][1]], "rewritten": new})
                     continue
                 if v["rule"] == "D19":
@@ -199,14 +215,24 @@ def desugar(loc, relfile, fn_paths, rules):
                     records.append({"fn": fp, "rule": "D4 X.iter().for_each(|p| B)  =>  for p in X.iter() { B }",
                                     "original": src[v["call"][0]:v["call"][1]], "rewritten": new})
     if not rewrites:
+        if _pass > 0:
+            return loc, []
         raise Undecided(f"{relfile}: desugaring requested for {fn_paths} but no candidate of rules {rules} found")
-    rewrites.sort(reverse=True)
-    last = len(src) + 1
-    for a, b, new in rewrites:
-        if b > last:
-            raise Undecided(f"{relfile}: nested desugaring candidates are not supported")
+    if len(rewrites) != len(records):
+        raise Undecided(f"{relfile}: internal error: desugaring rewrites and records out of step")
+    # nested candidates: the innermost ones are rewritten in this pass, the enclosing ones in the next pass
+    # (on the re-located text), so that an inner rewrite is not lost in the text an outer rule copies
+    paired = sorted(zip(rewrites, records), key=lambda t: (t[0][1] - t[0][0], t[0][0]))
+    chosen, postponed = [], False
+    for (a, b, new), rec in paired:
+        if any(not (b <= a2 or b2 <= a) for (a2, b2, _), _ in chosen):
+            postponed = True
+            continue
+        chosen.append(((a, b, new), rec))
+    chosen.sort(key=lambda t: t[0][0], reverse=True)
+    for (a, b, new), _ in chosen:
         src = src[:a] + new + src[b:]
-        last = a
+    records = [rec for _, rec in chosen]
     d = scratch("vd")
     try:
         tmp = os.path.join(d, os.path.basename(relfile))
@@ -215,6 +241,11 @@ def desugar(loc, relfile, fn_paths, rules):
         new_loc = _locate_path(tmp, relfile + " (desugared)")
     finally:
         rmtree(d)
+    if postponed:
+        if _pass >= 4:
+            raise Undecided(f"{relfile}: desugaring does not reach a fixed point")
+        new_loc, more = desugar(new_loc, relfile, fn_paths, rules, _pass + 1)
+        records += more
     return new_loc, records
 
 
